@@ -372,6 +372,12 @@ func (e *Exec) checkObligation(name string, c *Term) {
 		}
 		return
 	}
+	if !deadline.IsZero() && time.Now().After(deadline) {
+		ob.Status = "unknown"
+		ob.Note = "time budget exhausted before this obligation was sent to a solver"
+		e.addPC(c)
+		return
+	}
 	// an indexed assertion (one obligation per byte) that already has several confirmed-to-be-sat
 	// instances in this harness instance is not decided again for every further index: the
 	// instance is reported as violated either way (never as proved)
